@@ -1,7 +1,8 @@
 #!/usr/bin/env python3
 """Seeded-change matrix: for every /verif/seeded/<id> apply the patch to a scratch worktree of /repo (outside /repo and /verif),
 run the quick checks against that copy (VERIF_REPO), record which checks report a violation. Writes seeded/matrix.json.
-usage: tools/matrix.py [--jobs N] [--checks C01,C02,...] [--seeds C01-A,...]"""
+usage: tools/matrix.py [--jobs N] [--checks C01,C02,...] [--seeds C01-A,...] [--reduced]
+--reduced: per seed only its own property's check, C01, C02 and the checks that take a few seconds (C05 C06 C13 C15-C20)"""
 import json, os, subprocess, sys, tempfile, shutil, concurrent.futures
 V = os.path.dirname(os.path.dirname(os.path.abspath(__file__)))
 args = sys.argv[1:]
@@ -14,6 +15,16 @@ if "--seeds" in args:
 outfile = os.path.join(V, "seeded", "matrix.json")
 
 
+CHEAP = ["C05", "C06", "C13", "C15", "C16", "C17", "C18", "C19", "C20"]
+
+
+def checks_for(seed):
+    if "--reduced" in args:
+        own = seed.split("-")[0]
+        return sorted(set([own, "C01", "C02"] + CHEAP))
+    return checks
+
+
 def one(seed):
     wt = tempfile.mkdtemp(prefix="mx-%s-" % seed, dir="/tmp")
     os.rmdir(wt)
@@ -23,7 +34,7 @@ def one(seed):
         subprocess.run(["git", "-C", wt, "apply", os.path.join(V, "seeded", seed, "patch.diff")], check=True)
         ev = tempfile.mkdtemp(prefix="mxev-", dir="/tmp")
         env = dict(os.environ, VERIF_REPO=wt, VERIF_EVIDENCE_DIR=ev, VERIF_REPLAY_DIR=ev, VERIF_TLC_GB="4")
-        for c in checks:
+        for c in checks_for(seed):
             p = subprocess.run([os.path.join(V, "check"), c, "--tier", "quick"], capture_output=True, text=True, env=env, cwd=V)
             first = [l for l in p.stdout.splitlines() if l.startswith("  ")][:1]
             res[c] = {"rc": p.returncode, "violations": p.stdout.count("VIOLATION property="), "first": first[0].strip()[:300] if first else "",
